@@ -270,7 +270,19 @@ def r143(rep: Report, ctx: Ctx) -> None:
         loops = enclosing(hs.node, calls[0], (ast.For,))
         cnt = actual(calls[0], sv, "count")
         hd = ctx.defs(hs)
-        if loops and isinstance(cnt, ast.Name):
+        if loops and isinstance(cnt, ast.Name) and isinstance(
+                loops[-1].iter, ast.Call) and call_name(loops[-1].iter) == \
+                "enumerate" and isinstance(loops[-1].target, ast.Tuple):
+            # for n, stream in enumerate(streams, start=1)
+            it = loops[-1].iter
+            start = kw(it, "start") or (it.args[1] if len(it.args) > 1
+                                        else None)
+            names = [unparse(e) for e in loops[-1].target.elts]
+            ok = unparse(start) == "1" and names[0] == cnt.id and unparse(
+                actual(calls[0], sv, "pv_event_stream")) == names[1] and \
+                unparse(it.args[0]) == "pv_event_streams" and not enclosing(
+                    loops[-1], calls[0], (ast.If,))
+        elif loops and isinstance(cnt, ast.Name):
             init = [b for b in hd.of(cnt.id) if b.kind == "assign"]
             inc = [b for b in hd.of(cnt.id) if b.kind == "aug"]
             ok = len(init) == 1 and unparse(init[0].value) == "1" \
